@@ -74,7 +74,7 @@ def run(ctx):
                 '< > & quotes brackets non-ASCII and logic punctuation. The real xml_of / to_jigg_xml output is serialised, '
                 're-read with read_xml / read_jigg_xml, checked with XPath, passed to build_ccg_tree and normalize_tokens. '
                 'non-trivial = distinct trees with >= 2 leaves that were round-tripped')
-    cats = {'en': gen_cat.inventory('en'), 'ja': gen_cat.inventory('ja')}
+    cats = {'en': gen_cat.tree_cats('en'), 'ja': gen_cat.tree_cats('ja')}
     cases = []
     tmpdir = tempfile.mkdtemp(prefix='verif_c15_')
     try:
